@@ -1,5 +1,8 @@
 (* Executable model of boltons.cacheutils.LRI / LRU as written (after the fix:
-   commits d5bfaf9, f6e660c, 6098ee5, 562d9dc).  Definitions only.
+   commits d5bfaf9, f6e660c, 6098ee5, 562d9dc, 9635692, 9569540, 6d02f80; __len__ and
+   __contains__ read the storage under the lock since ae52c78).  Definitions only.
+   This is the list-level model; Model/C02_PtrModel.v + C02_PtrCache.v give the same
+   methods over cells and pointers and Proofs/C02_PtrSim.v proves the two equal.
 
    State of one cache, as in the code:
      store  the dict storage of the dict subclass (insertion order)
@@ -190,8 +193,9 @@ Definition step1 (c : cfg) (m : cache) (o : op1) : cache * res outv :=
   | NeOther => (m, Ok (OBool true))
   end.
 
-(* LRI.copy(): a new cache with the same max_size and on_miss, every link of the
-   list re-inserted oldest first through __setitem__ *)
+(* LRI.copy() (and copy.copy(c), which __copy__ forwards to it): a new cache with
+   the same max_size and on_miss, every link of the list re-inserted oldest first
+   through __setitem__ *)
 Definition copy_cache (c : cfg) (m : cache) : cache * res unit :=
   setitems c empty_cache (ring m).
 
